@@ -593,12 +593,61 @@ Fixpoint until_eof (es : list entry) : list entry :=
 Definition rows_streams (bs : list (list entry)) : list entry := filter is_live (List.concat bs).
 Definition rows_matrix (bs : list (list entry)) : list entry := List.concat (map until_eof bs).
 
+(* ------------------------------------------------------------------------------------------ *)
+(* QueryInstant, vector branch: lastValues map[fingerprint]entry keeps, per fingerprint, the entry with
+   the greatest timestamp (the first one on ties); then one object per map entry, in map order.
+   The map is an association list in first-seen order; [order] is the iteration order the runtime chose.
+   e_tsf carries the text of WriteInt64(TimestampNS / 1000000000) for this encoder. *)
+Fixpoint upd_last (m : list entry) (e : entry) : list entry :=
+  match m with
+  | [] => [e]
+  | x :: r => if N.eqb (e_fp x) (e_fp e) then (if Z.ltb (e_ts x) (e_ts e) then e else x) :: r
+              else x :: upd_last r e
+  end.
+Definition last_values (es : list entry) : list entry := fold_left upd_last es [].
+Definition find_fp (f : N) (m : list entry) : option entry := find (fun e => N.eqb (e_fp e) f) m.
+Fixpoint pick (order : list N) (m : list entry) : list entry :=
+  match order with
+  | [] => []
+  | f :: r => match find_fp f m with Some e => e :: pick r m | None => pick r m end
+  end.
+(* does the loop reach an entry with a real error (an EOF entry ends its batch first) *)
+Fixpoint batch_fails (es : list entry) : bool :=
+  match es with
+  | [] => false
+  | e :: r => match e_err e with EFail => true | EEOF => false | ENone => batch_fails r end
+  end.
+Definition vector_obj (e : entry) : list token :=
+  wObjectStart ++ wObjectField "metric" ++ write_map (e_lbls e) ++ wMore ++
+  wObjectField "value" ++ wArrayStart ++ wRaw (e_tsf e) ++ wMore ++ wString (e_val e) ++ wArrayEnd ++ wObjectEnd.
+Fixpoint vector_loop (es : list entry) (i : bool) : list token :=
+  match es with
+  | [] => []
+  | e :: r => (if i then wMore else []) ++ vector_obj e ++ vector_loop r true
+  end.
+Definition enc_vector (order : list N) (bs : list (list entry)) : list token :=
+  if existsb batch_fails bs then open_response "vector" ++ [TArrE; TObjE; TObjE]   (* onErr before anything else was sent *)
+  else open_response "vector" ++
+       vector_loop (pick order (last_values (List.concat (map until_eof bs)))) false ++ close_response.
+
+
 Definition doc_streams (bs : list (list entry)) : json :=
   response_doc "streams" (map (series_doc "stream" log_value_doc) (group (rows_streams bs))).
 Definition doc_matrix (bs : list (list entry)) : json :=
   response_doc "matrix" (map (series_doc "metric" matrix_value_doc) (group (rows_matrix bs))).
 Definition doc_tail (bs : list (list entry)) : json :=
   JObj [("streams", JArr (map (series_doc "stream" log_value_doc) (group (rows_streams bs))))].
+
+Definition vector_doc (e : entry) : json :=
+  JObj [("metric", labels_doc (e_lbls e)); ("value", JArr [JNum (e_tsf e); JStr (e_val e)])].
+Definition doc_vector (order : list N) (bs : list (list entry)) : json :=
+  response_doc "vector" (map vector_doc (pick order (last_values (rows_matrix bs)))).
+(* [order] names every fingerprint of the map exactly once *)
+Fixpoint nodupb (l : list N) : bool :=
+  match l with [] => true | x :: r => negb (existsb (N.eqb x) r) && nodupb r end.
+Definition is_perm_of (order keys : list N) : bool :=
+  Nat.eqb (List.length order) (List.length keys) && nodupb order &&
+  forallb (fun k => existsb (N.eqb k) order) keys.
 
 (* reading the rows back out of a streams/matrix document: (labels, value) pairs in document order *)
 Definition rows_of_series (d : json) : list (json * json) :=
@@ -691,12 +740,13 @@ Definition dec_Z (s : string) : Z :=
   end.
 Definition dec_nat (s : string) : nat := N.to_nat (dec_N s 0).
 
-Inductive enc_kind := KStreams | KMatrix | KTail | KTags | KTagValues | KLabels | KSeries.
+Inductive enc_kind := KStreams | KMatrix | KTail | KVector | KTags | KTagValues | KLabels | KSeries.
 Record case := {
   c_id : Z;
   c_kind : enc_kind;
   c_batches : list (list entry);   (* labels of each entry in the order observed in the output (see harness) *)
   c_items : list string;           (* list endpoints: tag names, label values, stored label documents *)
+  c_order : list N;                (* vector: fingerprints in the order of the result array *)
   c_out : string                   (* concatenated chunks the implementation sent *)
 }.
 
@@ -708,6 +758,7 @@ Definition model_bytes (c : case) : string :=
   | KStreams => render (enc_streams cur_hdr (c_batches c))
   | KMatrix => render (enc_matrix (c_batches c))
   | KTail => render (enc_tail cur_hdr (c_batches c))
+  | KVector => render (enc_vector (c_order c) (c_batches c))
   | KTags => render (enc_tempo_tags (c_items c))
   | KTagValues => render (enc_tempo_values (c_items c))
   | KLabels => render (enc_labels (c_items c))
@@ -725,6 +776,9 @@ Definition spec_doc (c : case) : option json :=
   | KStreams => Some (doc_streams (c_batches c))
   | KMatrix => Some (doc_matrix (c_batches c))
   | KTail => Some (doc_tail (c_batches c))
+  | KVector => if is_perm_of (c_order c) (map e_fp (last_values (rows_matrix (c_batches c))))
+               then Some (doc_vector (c_order c) (c_batches c))
+               else Some JNull      (* some series is missing or repeated: never equal to a body *)
   | KTags => Some (doc_tempo_list "tagNames" (c_items c))
   | KTagValues => Some (doc_tempo_list "tagValues" (c_items c))
   | KLabels => Some (doc_labels (c_items c))
@@ -754,7 +808,7 @@ Definition spec_violations (cs : list case) : list Z := map c_id (filter spec_vi
 Definition unreadable (cs : list case) : list Z := map c_id (filter unreadable_case cs).
 
 (* decoding of a transported case:
-   id | kind | #labelsets { #pairs { k | v } } | #batches { #entries { fp | labelset | ts | err | msg | tsf | val } } | #items { item } | out *)
+   id | kind | #labelsets { #pairs { k | v } } | #batches { #entries { fp | labelset | ts | err | msg | tsf | val } } | #items { item } | #order { fp } | out *)
 Fixpoint take_pairs (n : nat) (fs : list string) : option (list (string * string) * list string) :=
   match n with
   | O => Some ([], fs)
@@ -824,6 +878,7 @@ Definition dec_kind (s : string) : option enc_kind :=
   if String.eqb s "streams" then Some KStreams
   else if String.eqb s "matrix" then Some KMatrix
   else if String.eqb s "tail" then Some KTail
+  else if String.eqb s "vector" then Some KVector
   else if String.eqb s "tags" then Some KTags
   else if String.eqb s "tagvalues" then Some KTagValues
   else if String.eqb s "labels" then Some KLabels
@@ -836,7 +891,12 @@ Definition decode_case (x : lbytes) : option case :=
       match take_batches ls (dec_nat nb) r' with
       | Some (bs, ni :: r'') =>
         match take_items (dec_nat ni) r'' with
-        | Some (its, [o]) => Some {| c_id := dec_Z id; c_kind := k; c_batches := bs; c_items := its; c_out := unesc o |}
+        | Some (its, no :: r3) =>
+          match take_items (dec_nat no) r3 with
+          | Some (ord, [o]) => Some {| c_id := dec_Z id; c_kind := k; c_batches := bs; c_items := its;
+                                       c_order := map (fun x => dec_N x 0) ord; c_out := unesc o |}
+          | _ => None
+          end
         | _ => None
         end
       | _ => None
